@@ -292,6 +292,35 @@ def check_stride(res, facts):
                             rule.bad(key, "the %s used for chunk i is %s, but the chunks were cut with length K = %s: chunk i starts at element i*K, so the pieces are combined at the wrong positions and the result depends on the split (thread count)" % (kind, str(q)[:160], [show(k)[:100] for k in ks]), fn.loc)
 
 
+def check_chunknz(res, facts):
+    """a chunk length derived from the thread count is a run-time quantity that can be zero (empty input, more threads
+    than elements); `chunks(0)` / `par_chunks_mut(0)` panic.  Every such length must be clamped from below by a positive
+    constant -- then the split differs between thread counts but is always well formed."""
+    from rules.c07 import norm, show
+    rule = res.rule("R-CHUNKNZ", "chunk lengths derived from the number of threads are clamped to at least 1", 3)
+    CH = ("chunks", "chunks_mut", "par_chunks", "par_chunks_mut", "chunks_exact", "chunks_exact_mut", "par_chunks_exact", "par_chunks_exact_mut")
+    seen = set()
+    for f in facts.fns(unit="par"):
+        if "::test" in f.id or f.crate not in ("ark_ff", "ark_ec", "ark_poly", "ark_serialize"):
+            continue
+        for bb, t in f.calls():
+            if t["f"].get("name") not in CH or len(t["args"]) != 2:
+                continue
+            e = norm(DF.lift_captures(facts, f, DF.expr(f, t["args"][1], depth=30)))
+            txt = show(e)
+            if "current_num_threads" not in txt:
+                continue
+            key = "%s|%s|%s" % (f.crate, f.id[-90:], t["f"]["name"])
+            if key in seen:
+                continue
+            seen.add(key)
+            clamped = isinstance(e, tuple) and e[0] == "call" and e[1] == "max" and len(e[2]) == 2 and any(isinstance(x, int) and x >= 1 for x in e[2])
+            if clamped:
+                rule.ok(key, "length %s" % txt[:80], f.loc)
+            else:
+                rule.bad(key, "the chunk length %s depends on the number of threads and is not clamped to at least 1: for an empty input (or fewer elements than the expression assumes) it is 0 and %s panics -- only in builds with the parallel feature" % (txt[:100], t["f"]["name"]), f.loc)
+
+
 def run(ctx, res):
     facts = ctx.facts(["ws", "par", "shapes"])
     res.analysed = facts.stats()
@@ -303,6 +332,7 @@ def run(ctx, res):
     check_threads(res, facts)
     check_tail(res, facts)
     check_stride(res, facts)
+    check_chunknz(res, facts)
     from rules import c01
     c01.check_batchinv_par(res, facts)
     return {
